@@ -443,3 +443,43 @@ func parseSMTInt(v string) (*big.Int, bool) {
 	n, ok := new(big.Int).SetString(v, 10)
 	return n, ok
 }
+
+// parseSMTFloatBits parses an FP model value into its IEEE bit pattern.
+func parseSMTFloatBits(v string, w int) (*big.Int, bool) {
+	v = strings.TrimSpace(v)
+	eb, sb := 11, 53
+	if w == 32 {
+		eb, sb = 8, 24
+	}
+	mant := sb - 1
+	expAll := new(big.Int).Lsh(new(big.Int).Sub(pow2(eb), bigOne), uint(mant))
+	signBit := pow2(w - 1)
+	switch {
+	case strings.HasPrefix(v, "(fp "):
+		f := strings.Fields(strings.TrimSuffix(strings.TrimPrefix(v, "(fp "), ")"))
+		if len(f) != 3 {
+			return nil, false
+		}
+		s, ok1 := parseSMTInt(f[0])
+		e, ok2 := parseSMTInt(f[1])
+		m, ok3 := parseSMTInt(f[2])
+		if !ok1 || !ok2 || !ok3 {
+			return nil, false
+		}
+		r := new(big.Int).Lsh(s, uint(w-1))
+		r.Or(r, new(big.Int).Lsh(e, uint(mant)))
+		r.Or(r, m)
+		return r, true
+	case strings.HasPrefix(v, "(_ +zero"):
+		return big.NewInt(0), true
+	case strings.HasPrefix(v, "(_ -zero"):
+		return new(big.Int).Set(signBit), true
+	case strings.HasPrefix(v, "(_ +oo"):
+		return new(big.Int).Set(expAll), true
+	case strings.HasPrefix(v, "(_ -oo"):
+		return new(big.Int).Or(expAll, signBit), true
+	case strings.HasPrefix(v, "(_ NaN"):
+		return new(big.Int).Or(expAll, pow2(mant-1)), true
+	}
+	return nil, false
+}
